@@ -238,6 +238,7 @@ pub fn root_case(root: &Root, script: Vec<Vec<f64>>) -> PlanCase {
         space2: None,
         fault_persists: false,
         raw_space: false,
+        prm_timeout: None,
     }
 }
 
